@@ -408,7 +408,7 @@ func checkC19(c *Ctx) {
 
 	c.Set("exhaustive", true)
 	c.Set("rule", "TLC enumerates case lists (tier 1: one case, <= 2 ordered alternatives from 42 patterns (literals 1, 2, 'a', null, true; identifier; array patterns of length 0..2, nested to depth 2, identifiers at every position), every body kind; "+
-		"tier 2: two cases over a pool of 7 (thorough 12) patterns with <= 2 alternatives, 5 body schemes; tier 3: three cases over 12 (thorough 26) alternative lists, 5 body schemes) x the 10 subjects; "+
+		"tier 2: two cases over a pool of 7 (thorough 12) patterns with <= 2 alternatives, 5 body schemes; tier 3: three cases over 12 (thorough 24) alternative lists, 5 body schemes) x the 10 subjects; "+
 		"one real run per (case list, subject); non-trivial = some case is selected; distinct by program text")
 	c.Set("checker_cmd", "tlc MC_Match; replay `print match (subject) { cases }` through lang.EvalProgram in worker subprocesses, with Push/Pop events")
 	c.Set("runs_per_tier", perTier)
